@@ -102,6 +102,12 @@ def cases(rng, tier, shard, nshards):
     from .. import boot
     mods = boot.modules()
     total = META['quick_cases'] if tier == 'quick' else META['thorough_cases']
+    # one long, one-sidedly nested curve per shard: every knee lies in the first few points of what is left, so the
+    # decomposition is a chain about n/2 levels deep
+    n = int(rng.integers(2600, 3600))
+    x = np.arange(1, n + 1, dtype=float)
+    yield {'points': np.ascontiguousarray(np.column_stack((x, 1000.0 / (1.0 + x)))), 'family': 'hyperbola-long',
+           'layout': 'C', 'detector': 'curvature', 't1': 1e-4, 't2': 3}
     for i in range(shard_count(total, shard, nshards)):
         r = rng.random()
         if tier == 'thorough' and r < 0.004:
